@@ -80,6 +80,25 @@ func vOneAmp(p string, amp int) {
 		}
 		return
 	}
+	if amp == -4 || amp == -5 {
+		// a decimal character reference "&#dd;" with lead (amp == -4) symbolic bytes before it,
+		// or trail (amp == -5) symbolic bytes after it; the other bytes are not '&'
+		k := vParam("k")
+		lo, hi := k, len(p)
+		if amp == -5 {
+			lo, hi = 0, len(p)-k
+		}
+		vAssume(hi-lo >= 4)
+		vAssume(p[lo] == '&' && p[lo+1] == '#' && p[hi-1] == ';')
+		for i := 0; i < len(p); i++ {
+			if i >= lo+2 && i < hi-1 {
+				vAssume(refDigit(p[i]))
+			} else if i < lo || i >= hi {
+				vAssume(p[i] != '&')
+			}
+		}
+		return
+	}
 	if amp == -3 {
 		// the prefix is one decimal character reference "&#ddd;"
 		vAssume(len(p) >= 4)
